@@ -60,12 +60,14 @@ func Doesc(s string, i int) (byte, int) {
 		return '\t', i + 1
 	case 'r':
 		return '\r', i + 1
+	case '0':
+		return 0, i + 1
 	case '\\', '"', '\'':
 		return c, i + 1
 	case 'x':
-		if i+2 < len(s) {
-			dig1 := ascii.Digit(s[i+1], 16)
-			dig2 := ascii.Digit(s[i+2], 16)
+		if i+3 < len(s) {
+			dig1 := ascii.Digit(s[i+2], 16)
+			dig2 := ascii.Digit(s[i+3], 16)
 			if dig1 != -1 && dig2 != -1 {
 				return byte(16*dig1 + dig2), i + 3
 			}
